@@ -1747,8 +1747,29 @@ impl Interp {
                 .increment();
         }
 
+        self.release_command_context(name);
         self.commands
             .insert(name.into(), Rc::new(Command::Native(func, context_id)));
+    }
+
+    /// Releases the context reference held by the command currently bound to `name`, if
+    /// any; the context is dropped when no command uses it any longer.  Called whenever
+    /// a binding is about to be replaced or removed.
+    fn release_command_context(&mut self, name: &str) {
+        let context_id = match self.commands.get(name) {
+            Some(cmd) => cmd.context_id(),
+            None => return,
+        };
+
+        if context_id != NULL_CONTEXT
+            && self
+                .context_map
+                .get_mut(&context_id)
+                .expect("unknown context ID")
+                .decrement()
+        {
+            self.context_map.remove(&context_id);
+        }
     }
 
     /// Adds a procedure to the interpreter.
@@ -1764,6 +1785,7 @@ impl Interp {
             body: body.clone(),
         };
 
+        self.release_command_context(name);
         self.commands
             .insert(name.into(), Rc::new(Command::Proc(proc)));
     }
@@ -1802,6 +1824,7 @@ impl Interp {
         if let Some(cmd) = self.commands.get(old_name) {
             let cmd = Rc::clone(cmd);
             self.commands.remove(old_name);
+            self.release_command_context(new_name);
             self.commands.insert(new_name.into(), cmd);
         }
     }
